@@ -218,6 +218,8 @@ Proof.
   destruct s as [|t rest]; [inversion E; subst; exact H|].
   destruct (0 <? t_numparams t); [inversion E; subst; exact H|].
   destruct (t_disable_params t); [inversion E; subst; exact H|].
+  destruct (existsb _ (p :: ps)); [inversion E; subst; exact H|].
+  destruct (0 <? t_numdef t); [inversion E; subst; exact H|].
   eapply set_params_go_inv; [|exact E].
   eapply inv_head_same_store; [| | exact H]; reflexivity.
 Qed.
@@ -420,6 +422,8 @@ Proof.
     destruct s as [|t rest]; [inversion E; subst; exact H|].
     destruct (0 <? t_numparams t); [inversion E; subst; exact H|].
     destruct (t_disable_params t); [inversion E; subst; exact H|].
+  destruct (existsb _ (p :: ps)); [inversion E; subst; exact H|].
+  destruct (0 <? t_numdef t); [inversion E; subst; exact H|].
     pose proof (f_equal fst E) as E1; cbn [fst] in E1. rewrite <- E1.
     apply set_params_go_root.
     destruct rest as [|u r0]; [exact H|]. rewrite (root_lookup_head_nonroot t) by discriminate. exact H.
